@@ -8,6 +8,7 @@ from units import run_interp_production, addr_atom
 from program import arch_index
 from absint import Unsupported
 import mir as M
+import re
 
 EXPL = (
     "R1 zero test dominates division (DivisionByZero/RemainderByZero asserts proved by interval refinement); "
@@ -186,6 +187,8 @@ def run(ctx, chk):
         res = err_arm_rule(ctx, fn)
         if res is None:
             chk.undecided_("C03.R4", label, "no indirect helper call with a Result in this action")
+        elif res[0] is None:
+            chk.undecided_("C03.R4", label, res[1])
         elif res[0]:
             chk.ok("C03.R4", label, res[1])
         else:
@@ -220,10 +223,34 @@ def err_arm_rule(ctx, fn):
                 if s[0] == "assign" and s[2][0] == "disc" and s[2][1]["l"] == dest["l"]:
                     disc_local = s[1]["l"]
             tt = M.term(blk)
-            if disc_local is None or tt[0] != "switch":
-                return (False, "the Result of the helper call is not matched directly")
-            arms = dict((v, tgt) for v, tgt in tt[2])
-            err_t = arms.get(1, tt[3] if 1 not in arms else None)
+            err_t = None
+            if disc_local is not None and tt[0] == "switch":
+                arms = dict((v, tgt) for v, tgt in tt[2])
+                err_t = arms.get(1, tt[3] if 1 not in arms else None)
+            else:
+                # `if f(..).is_err() { .. }` / `if !f(..).is_ok()`: the Result is examined through is_err / is_ok
+                from cfgtools import Defs, origin
+                defs = Defs(fn)
+                b2 = cur
+                for _ in range(4):
+                    t2 = M.term(fn["blocks"][b2])
+                    if t2[0] == "call" and re.search(r"Result::<T, E>::is_(err|ok)$", t2[1].get("def") or "") and t2[2]:
+                        o = origin(defs, t2[2][0])
+                        base = o[1] if o[0] in ("multi", "param") else (o[1]["l"] if o[0] == "place" else (o[1][3]["l"] if o[0] == "call" else None))
+                        if base == dest["l"] and t2[4] is not None:
+                            sw = M.term(fn["blocks"][t2[4]])
+                            if sw[0] == "switch":
+                                is_err = (t2[1].get("def") or "").endswith("is_err")
+                                true_t = sw[3] if all(v == 0 for v, _ in sw[2]) else next((tg for v, tg in sw[2] if v == 1), sw[3])
+                                false_t = next((tg for v, tg in sw[2] if v == 0), sw[3])
+                                err_t = true_t if is_err else false_t
+                        break
+                    nxt = M.succs(fn["blocks"][b2])
+                    if len(nxt) != 1:
+                        break
+                    b2 = nxt[0]
+                if err_t is None:
+                    return (None, "the way the Result of the helper call is examined was not recognised")
             if err_t is None:
                 return (False, "no Err arm")
             # walk the Err arm to return: no writes through vm, no calls; returned value INT(0)
